@@ -27,20 +27,54 @@ Definition sync_config (ref peer cutoff timeout interval : option f64) : config 
   mkcfg (factor_or ref default_ref) (factor_or peer default_peer)
         (dur_or cutoff default_cutoff) (dur_or timeout default_timeout) (dur_or interval default_interval).
 
+(* the exact value of a finite float64: x = m * 2^e *)
+Definition f_exact (x : f64) : option (Z * Z) :=
+  match x with
+  | BinarySingleNaN.B754_zero _ => Some (0, 0)
+  | BinarySingleNaN.B754_finite s m e _ => Some (if s then Z.neg m else Z.pos m, e)
+  | _ => None
+  end.
+
+(* "the setting is in seconds (seconds per second for the drift), the service works in nanoseconds": n is x * 10^9 up
+   to the float64 rounding of the product and the conversion to whole nanoseconds, |n - x * 10^9| <= 1 + 2^-52 * |x * 10^9|,
+   judged when |x * 10^9| < 2^62 (beyond that, and for NaN and the infinities, the conversion to int64 is left to the
+   model comparison).  In integers: x * 10^9 * 2^k = num * 2^j with k = max 0 (-e), j = max 0 e. *)
+Definition scaled (x : f64) : option (Z * Z) :=   (* (x * 10^9 * 2^k, 2^k) *)
+  match f_exact x with
+  | Some (m, e) => Some (m * 1000000000 * 2 ^ (Z.max 0 e), 2 ^ (Z.max 0 (- e)))
+  | None => None
+  end.
+Definition nanos_close (x : f64) (n : Z) : bool :=
+  match scaled x with
+  | Some (v, q) => if Z.abs v <? 2^62 * q then Z.abs (n * q - v) * 2^52 <=? q * 2^52 + Z.abs v else true
+  | None => true
+  end.
+(* below one nanosecond in magnitude (this includes 0) *)
+Definition sub_ns (x : f64) : bool :=
+  match scaled x with Some (v, q) => Z.abs v <? q | None => false end.
+
+(* a duration setting: a value that comes to 0 ns means "not configured" and takes the default *)
+Definition dur_setting_ok (x : option f64) (dflt out : Z) : bool :=
+  match x with
+  | None => out =? dflt
+  | Some x => ((out =? dflt) && sub_ns x) || (nanos_close x out && negb (out =? 0))
+  end.
+
 (* oracle for the configuration step, from the documentation of the settings: a negative drift is refused and
    nothing else is; omitted (or zero) settings take the documented defaults; factors that are given are handed
-   on unchanged (bit for bit, NaN being one value) *)
+   on unchanged (bit for bit, NaN being one value); the drift and the three durations are given in seconds and
+   arrive in nanoseconds *)
 Definition same_f (a b : f64) : bool := f_to_bits a =? f_to_bits b.
 Definition C01_config_ok (drift ref peer cutoff timeout interval : option f64)
            (fatal : bool) (odrift : Z) (oref opeer : f64) (ocutoff otimeout ointerval : Z) : bool :=
   Bool.eqb fatal (flt (setting drift) fzero) &&
   (fatal ||
-   (match drift with None => odrift =? 0 | Some _ => true end &&
+   (match drift with None => odrift =? 0 | Some x => nanos_close x odrift end &&
     same_f oref (if feq (setting ref) fzero then default_ref else setting ref) &&
     same_f opeer (if feq (setting peer) fzero then default_peer else setting peer) &&
-    match cutoff with None => ocutoff =? default_cutoff | Some _ => true end &&
-    match timeout with None => otimeout =? default_timeout | Some _ => true end &&
-    match interval with None => ointerval =? default_interval | Some _ => true end)).
+    dur_setting_ok cutoff default_cutoff ocutoff &&
+    dur_setting_ok timeout default_timeout otimeout &&
+    dur_setting_ok interval default_interval ointerval)).
 
 (* ---- the service's wiring (timeservice.go runServer / runClient / createClocks) ---- *)
 
